@@ -49,3 +49,48 @@ def header(lib):
             out.append("}")
     out.append("#endif")
     return name, "\n".join(out) + "\n"
+
+
+def headers_from_dict(d):
+    """[(file name, text)] for a description given as a dict: the library header plus one header per class that names its
+    own class-level `cxx_header:`; a class (or function) with `cpp_if:` is wrapped in that conditional."""
+    language = d.get("language", "c++")
+    own = []
+
+    def emit(decls, out, indent):
+        pad = "    " * indent
+        for e in decls:
+            decl = e["decl"]
+            target = out
+            if decl.startswith("class ") and e.get("cxx_header"):
+                target = []
+                own.append((e["cxx_header"], target))
+            if e.get("cpp_if"):
+                target.append("#" + e["cpp_if"])
+            if decl.startswith("class "):
+                name = decl.split()[1]
+                target.append("%sclass %s {" % (pad, name))
+                target.append("%spublic:" % pad)
+                emit(e.get("declarations", []), target, indent + 1)
+                target.append("%s};" % pad)
+            elif decl.startswith("namespace "):
+                target.append("%snamespace %s {" % (pad, decl.split()[1]))
+                emit(e.get("declarations", []), target, indent + 1)
+                target.append("%s}" % pad)
+            else:
+                target.append("%s%s;" % (pad, strip_attrs(decl)))
+            if e.get("cpp_if"):
+                target.append("#endif")
+
+    def wrap(name, body):
+        guard = re.sub(r"\W", "_", name).upper()
+        pre = ["#ifndef %s" % guard, "#define %s" % guard]
+        if language == "c":
+            pre += ["#include <stddef.h>", "#include <stdbool.h>"]
+        else:
+            pre += ["#include <cstddef>", "#include <string>", "#include <vector>"]
+        return name, "\n".join(pre + body + ["#endif"]) + "\n"
+
+    main = []
+    emit(d["declarations"], main, 0)
+    return [wrap(d["cxx_header"], main)] + [wrap(n, b) for n, b in own]
